@@ -1,6 +1,6 @@
 (* Properties/C02.v — derived Equal is exactly structural equality.
    Statements only; proofs are in Go/EqualProofs.v. *)
-From Verif Require Import Go.Ty Go.Val Go.Equal Go.EqualProofs Go.CompareSpec Go.Canon Go.Invariance Go.Clean.
+From Verif Require Import Base Go.Ty Go.Val Go.Equal Go.EqualProofs Go.CompareSpec Go.Canon Go.Invariance Go.Clean Go.Compare Go.Methods Go.MethodsEx.
 From Coq Require Import Permutation.
 
 (* For every type and all well-typed (acyclic, NaN-free) values the generated comparison — in
@@ -91,3 +91,15 @@ Theorem C02_equal_bytes_old_refuted :
   /\ equal_model bytes_struct (VSt [VNilS]) (VSt [VSl 1 [] []]) = Ok false.
 Proof. exact equal_bytes_old_refuted. Qed.
 Print Assumptions C02_equal_bytes_old_refuted.
+
+(* The pinned generator compared ==-comparable arrays/structs with == even when a component declares its own
+   Equal method (found by the thorough tier on [2][2]ME): Equal false where the method says true and
+   where Compare, which honours the method, says 0.  The repaired generator lets the method answer. *)
+Theorem C02_equal_method_in_composite_refuted :
+  exists t x y, MethodsEx.ex_ty = Some t /\ MethodsEx.ex_x = Some x /\ MethodsEx.ex_y = Some y /\
+    has_type [] t x = true /\ has_type [] t y = true /\
+    eqm_m_old [] Top t x y = Ok false /\
+    cmpm_m true [] t x y = Ok 0%Z /\
+    eqm_m [] Top t x y = Ok true.
+Proof. exact MethodsEx.equal_method_in_composite_refuted. Qed.
+Print Assumptions C02_equal_method_in_composite_refuted.
